@@ -263,9 +263,13 @@ def cubic_spline(
             )
         )
 
+    # The spline itself maps [0, 1] to [0, 1]; account for the scaling of the two boxes.
+    log_box_scale = math.log(top - bottom) - math.log(right - left)
     if inverse:
         outputs = outputs * (right - left) + left
+        logabsdet = logabsdet - log_box_scale
     else:
         outputs = outputs * (top - bottom) + bottom
+        logabsdet = logabsdet + log_box_scale
 
     return outputs, logabsdet
